@@ -79,8 +79,15 @@ TtyChecks(e) ==
              Flag(e.rc # 0, "C12_exit_status_untruthful")
              \cup Flag(e.out \in {"untouched", "absent", "none"}, "C13_output_created_or_clobbered_by_failed_command"))
 
+\* C11 at the process boundary: peak resident set of the tool on a large input vs a small one
+RssChecks(e) ==
+  Flag(e.exit = 0, "C12_exit_status_untruthful")
+  \cup Flag(e.rss_kb <= e.base_rss_kb + 16384, "C11_process_memory_grows_with_input_size")
+  \cup Flag(e.roundtrip_ok, "C01_round_trip_differs")
+
 Checks(e) ==
   CASE e.ev = "cli"  -> CliChecks(e)
+    [] e.ev = "rss"  -> RssChecks(e)
     [] e.ev = "tty"  -> TtyChecks(e)
     [] e.ev = "argv" -> ArgvChecks(e)
     [] e.ev = "gen"  -> GenChecks(e)
